@@ -15,7 +15,7 @@ from pycoin.encoding.hexbytes import h2b, b2h, h2b_rev
 PROP = "C07"
 DRIVER = "C07"
 INTERACTIVE = True     # the hash of Tx.hash / w_hash is an oracle answered from hashlib
-RULE = ("correspondence: one driver line per call (parse_tx, parse_tx_ltc, from_bin, from_hex, as_bin, as_hex, hash, w_hash, "
+RULE = ("correspondence: one driver line per call or per HISTORY of calls on one object (history, parse_tx, parse_tx_ltc, from_bin, from_hex, as_bin, as_hex, hash, w_hash, "
         "blanked_hash, id, w_id, txin/txout parse+stream, spendable bin/dict/text, satoshi int/string, parse_struct, "
         "stream_struct, h2b, b2h ...); distinct = distinct line; non-trivial = the model returns a value, not an exception")
 PARTIAL = [
@@ -24,7 +24,9 @@ PARTIAL = [
     "as_hex/from_hex: theorem over the model's b2h/h2b (binascii semantics tied by correspondence)",
 ]
 TRUSTED = ["struct.pack/unpack '<L' '<Q' '!H' '?' as fixed-width codecs (probed live by harness/gens/codecs_c07.py)",
-           "object identity / mutability of Tx, TxIn, TxOut is not modelled: a transaction is the value of its fields"]
+           "mutability is modelled by Model/TxObject.v (histories of observers and mutators on one object); aliasing (the same TxIn "
+           "object twice in txs_in) is not; presentations of the field values as other Python types (bytearray, memoryview, int "
+           "subclasses ...) exist only on the implementation side (direct check `presentation`)"]
 
 U32 = (1 << 32) - 1
 U64 = (1 << 64) - 1
@@ -436,6 +438,404 @@ def _stream(o, **kw):
     return f.getvalue()
 
 
+
+# ------------------------------------------------------------------------------------------------
+# coin classes (family: the same property on every network's Tx class) with the property's own reference hash
+def _sha(b):
+    return hashlib.sha256(b).digest()
+
+
+def _net_classes():
+    res = {}
+    try:
+        from pycoin.networks.registry import network_for_netcode
+        for code in ("BTC", "XTN", "LTC", "GRS", "BCH", "BTG", "DOGE", "TGRS", "XCH", "XTG"):
+            try:
+                res[code] = network_for_netcode(code).tx
+            except Exception:
+                pass
+    except Exception:
+        pass
+    res.setdefault("BTC", Tx)
+    res.setdefault("GRS", GrsTx)
+    res.setdefault("LTC", LTCTx)
+    return res
+
+
+NET_CLASSES = _net_classes()
+# Groestlcoin ids are a single SHA-256, everything else double SHA-256 (not read from /repo)
+REF_HASH = {code: (_sha if code in ("GRS", "TGRS", "GRSRT") else dsha) for code in NET_CLASSES}
+HNAME = {code: ("sha256" if code in ("GRS", "TGRS", "GRSRT") else "dsha256") for code in NET_CLASSES}
+
+
+# ------------------------------------------------------------------------------------------------
+# histories of ONE object: observers and mutators (Model/TxObject.v).  An op is a tuple, its first element the tag.
+def flags_tok(bl, iu, iw):
+    return "".join("T" if x else "F" for x in (bl, iu, iw))
+
+
+def op_token(op):
+    k = op[0]
+    if k in ("mw", "aw"):
+        return "%s/%s/%s" % (k, canon(op[1]), "N" if not op[2] else ";".join(canon(x) for x in op[2]))
+    if k in ("as", "ah", "os"):
+        return "%s/%s/%s" % (k, canon(op[1]), canon(op[2]))
+    if k in ("ai", "aq", "ov"):
+        return "%s/%s/%s" % (k, canon(op[1]), canon(op[2]))
+    if k == "pi":
+        return "pi/" + a_txin(op[1])
+    if k == "po":
+        return "po/" + a_txout(op[1])
+    if k in ("av", "al"):
+        return "%s/%s" % (k, canon(op[1]))
+    if k in ("su", "au"):
+        return "%s/%s" % (k, a_unspents(op[1]))
+    if k in ("ob", "ox"):
+        return "%s/%s" % (k, flags_tok(*op[1]))
+    if k == "oh":
+        return "oh/" + canon(op[1])
+    if k == "ck":
+        return "ck/%s/%s" % (canon(op[1]), canon(op[2]))
+    return k          # xi ci xo co ow ok oi oj on oc om
+
+
+def is_observer(op):
+    return op[0] in ("ob", "ox", "oh", "ow", "ok", "oi", "oj", "on", "oc", "om", "ck")
+
+
+def apply_op(t, op):
+    """apply one op to the live object; returns the observation (None for a mutator)"""
+    k = op[0]
+    cls = type(t)
+    if k == "mw":
+        t.set_witness(op[1], list(op[2]))
+    elif k == "aw":
+        t.txs_in[op[1]].witness = list(op[2])
+    elif k == "as":
+        t.txs_in[op[1]].script = op[2]
+    elif k == "ah":
+        t.txs_in[op[1]].previous_hash = op[2]
+    elif k == "ai":
+        t.txs_in[op[1]].previous_index = op[2]
+    elif k == "aq":
+        t.txs_in[op[1]].sequence = op[2]
+    elif k == "pi":
+        h, i, sc, q, w = op[1]
+        x = cls.TxIn(h, i, sc, q)
+        x.witness = list(w)
+        t.txs_in.append(x)
+    elif k == "xi":
+        t.txs_in.pop()
+    elif k == "ci":
+        t.txs_in.clear()
+    elif k == "po":
+        t.txs_out.append(cls.TxOut(op[1][0], op[1][1]))
+    elif k == "xo":
+        t.txs_out.pop()
+    elif k == "co":
+        t.txs_out.clear()
+    elif k == "ov":
+        t.txs_out[op[1]].coin_value = op[2]
+    elif k == "os":
+        t.txs_out[op[1]].script = op[2]
+    elif k == "av":
+        t.version = op[1]
+    elif k == "al":
+        t.lock_time = op[1]
+    elif k == "su":
+        t.set_unspents([None if u is None else cls.TxOut(u[0], u[1]) for u in op[1]])
+    elif k == "au":
+        t.unspents = [None if u is None else cls.TxOut(u[0], u[1]) for u in op[1]]
+    elif k == "ob":
+        return t.as_bin(blank_solutions=op[1][0], include_unspents=op[1][1], include_witness_data=op[1][2])
+    elif k == "ox":
+        return t.as_hex(blank_solutions=op[1][0], include_unspents=op[1][1], include_witness_data=op[1][2]).encode()
+    elif k == "oh":
+        return bytes(t.hash(hash_type=op[1]))
+    elif k == "ow":
+        return bytes(t.w_hash())
+    elif k == "ok":
+        return bytes(t.blanked_hash())
+    elif k == "oi":
+        return t.id().encode()
+    elif k == "oj":
+        return t.w_id().encode()
+    elif k == "on":
+        return t.has_witness_data()
+    elif k == "oc":
+        return t.is_coinbase()
+    elif k == "om":
+        return t.missing_unspents()
+    elif k == "ck":
+        return t.check()
+    else:
+        raise KeyError(k)
+    return None
+
+
+def fresh_like(t):
+    """a NEW object of the same class with the same current field values (the independent reference of the history checks)"""
+    cls = type(t)
+    t2 = mk_tx(tx_tuple(t), cls)
+    t2.unspents = [None if u is None else cls.TxOut(u.coin_value, bytes(u.script)) for u in t.unspents]
+    return t2
+
+
+def hist_impl(d, us, ops, cls):
+    t = mk_tx(d, cls)
+    t.unspents = [None if u is None else cls.TxOut(u[0], u[1]) for u in us]
+    out = []
+    for op in ops:
+        out.append(call(apply_op, t, op))
+    return "[" + " ".join(out) + "]"
+
+
+def hist_line(hname, d, us, ops):
+    return "history %s %s %s %s" % (hname, a_tx(d), a_unspents(us), " ".join(op_token(o) for o in ops))
+
+
+BATTERY = [("ob", (False, False, True)), ("ob", (False, False, False)), ("ob", (True, False, True)), ("ob", (False, True, True)),
+           ("ox", (False, False, True)), ("oh", None), ("oh", 1), ("ow",), ("ok",), ("oi",), ("oj",), ("on",), ("oc",), ("om",)]
+
+
+def _obs(t, op):
+    try:
+        return ("ok", apply_op(t, op))
+    except Exception as e:
+        return ("raise", exn_tag(e))
+
+
+def chk_history(d, us, ops, code="BTC", battery=None):
+    """apply the history to one object; after construction and after every operation compare EVERY observer on the
+    long-lived object with the same observer on a freshly built object with the same current fields, and the
+    serialisation / ids with the independent serialiser"""
+    cls = NET_CLASSES[code]
+    Hf = REF_HASH[code]
+    t = mk_tx(d, cls)
+    t.unspents = [None if u is None else cls.TxOut(u[0], u[1]) for u in us]
+    battery = battery or BATTERY
+    steps = [None] + list(ops)
+    for n, op in enumerate(steps):
+        if op is not None:
+            try:
+                apply_op(t, op)
+            except Exception:
+                pass
+        for ob in battery:
+            live = _obs(t, ob)
+            ref = _obs(fresh_like(t), ob)
+            if live != ref:
+                return {"kind": "history-dependent-observation", "after_op": n, "op": None if op is None else op_token(op)[:80],
+                        "observer": op_token(ob), "live": str(live)[:160], "fresh": str(ref)[:160]}
+        cur = tx_tuple(t)
+        if valid_tx(cur):
+            exp = spec_ser(cur)
+            if _obs(t, ("ob", (False, False, True))) != ("ok", exp):
+                return {"kind": "history-not-wire-format-of-current-fields", "after_op": n, "op": None if op is None else op_token(op)[:80]}
+            leg = spec_ser(cur, False)
+            if _obs(t, ("oh", None)) != ("ok", Hf(leg)) or _obs(t, ("ow",)) != ("ok", Hf(exp)):
+                return {"kind": "history-ids-not-of-current-fields", "after_op": n, "op": None if op is None else op_token(op)[:80]}
+    return None
+
+
+def g_mutators(rng, d):
+    """one instance of every mutator, with parameters that make sense for d (and some that do not: index out of range)"""
+    n_in, n_out = len(d[1]), len(d[2])
+    i = rng.randrange(n_in) if n_in else 0
+    o = rng.randrange(n_out) if n_out else 0
+    wit = rng.choice([[b"\x30" * 71, b"\x02" * 33], [b""], [b"", b"x"]])
+    new_in = (blob(rng, 32), rng.randrange(4), b"", U32, rng.choice([[], [b"\x01"], [b""]]))
+    ms = [("mw", i, wit), ("mw", i, []), ("aw", i, wit), ("aw", i, []), ("aw", n_in, wit), ("mw", n_in + 1, wit),
+          ("as", i, blob(rng, rng.choice([0, 1, 107, 253]))), ("ah", i, blob(rng, 32)), ("ah", i, bytes(32)), ("ai", i, rng.choice([0, 5, U32])),
+          ("aq", i, rng.choice([0, U32 - 1])), ("pi", new_in), ("pi", (blob(rng, 32), 1, b"s", 0, [b"w"])), ("xi",), ("ci",),
+          ("po", (rng.choice([0, 1, 5000]), b"\x51")), ("xo",), ("co",), ("ov", o, rng.choice([0, 7, U64])), ("os", o, blob(rng, rng.choice([0, 25, 253]))),
+          ("av", rng.choice([2, U32])), ("al", rng.choice([0, 500000000])), ("su", [(5, b"\x51")] * n_in), ("su", [(5, b"\x51")] * (n_in + 1)),
+          ("au", [None] * n_in), ("au", [])]
+    return ms
+
+
+def base_history_txs(rng):
+    h1, h2 = blob(rng, 32), blob(rng, 32)
+    return [
+        (1, [(h1, 0, b"", U32, []), (h2, 1, b"\x51", U32, [])], [(5000, b"\x00\x14" + b"\x44" * 20)], 0),               # legacy, 2 inputs
+        (2, [(h1, 0, b"", 0, [b"", b"\x03" * 33]), (h2, 1, b"q", 7, [])], [(0, b""), (U64, b"\x51")], 9),                 # extended
+        (1, [(bytes(32), U32, b"\x51\x51", 0, [])], [(50 * 10**8, b"\x51")], 0),                                         # coinbase
+        (1, [(h1, 3, b"\x00" * 252, 1, [b"\x01"] * 3)], [], 0),
+    ]
+
+
+def history_cases(rng, tier):
+    """(d, unspents, ops, code): observer x mutator x observer on every base transaction, then random longer histories"""
+    res = []
+    bases = base_history_txs(rng)
+    observers = BATTERY
+    for bi, d in enumerate(bases):
+        for m in g_mutators(rng, d):
+            obs = observers if tier == "thorough" else [observers[(bi + k) % len(observers)] for k in range(0, len(observers), 3)]
+            for ob in obs:
+                res.append((d, [], [ob, m, ob], "BTC"))
+            res.append((d, [(7, b"\x51")] * len(d[1]), [("ob", (False, True, True)), ("om",), m, ("ob", (False, True, True)), ("om",)], "BTC"))
+    for _ in range(150 if tier == "quick" else 6000):
+        d = rng.choice(bases + [g_tx(rng, n_in=rng.choice([1, 2, 3]), n_out=rng.choice([0, 1, 2]))])
+        ops = []
+        cur = d
+        for _ in range(rng.randint(2, 9)):
+            if rng.random() < 0.5:
+                ops.append(rng.choice(observers))
+            else:
+                ops.append(rng.choice(g_mutators(rng, cur)))
+        ops.append(rng.choice(observers))
+        res.append((d, rng.choice([[], [(3, b"a")] * len(d[1])]), ops, rng.choice(["BTC", "BTC", "GRS", "LTC"])))
+    return res
+
+
+def direct_history_cases(rng, tier):
+    """histories for the direct check: [battery] m [battery] for every mutator, pairs of mutators, random ones; every class"""
+    res = []
+    bases = base_history_txs(rng)
+    codes = sorted(NET_CLASSES)
+    for bi, d in enumerate(bases):
+        ms = g_mutators(rng, d)
+        for k, m in enumerate(ms):
+            res.append((d, [(7, b"\x51")] * len(d[1]) if k % 2 else [], [m], codes[(bi + k) % len(codes)] if k % 3 == 0 else "BTC"))
+        for _ in range(20 if tier == "quick" else 400):
+            res.append((d, [], [rng.choice(ms) for _ in range(rng.randint(2, 5))], rng.choice(codes)))
+    for _ in range(40 if tier == "quick" else 3000):
+        d = g_tx(rng, n_in=rng.choice([1, 2, 3]), n_out=rng.choice([0, 1, 2]))
+        ops = [rng.choice(g_mutators(rng, d)) for _ in range(rng.randint(1, 6))]
+        res.append((d, [], ops, rng.choice(codes)))
+    return res
+
+
+def ops2j(ops):
+    def enc(x):
+        if isinstance(x, (bytes, bytearray)):
+            return {"b": bytes(x).hex()}
+        if isinstance(x, (list, tuple)):
+            return [enc(y) for y in x]
+        return x
+    return [enc(list(o)) for o in ops]
+
+
+def j2ops(j):
+    def dec(x, top=False):
+        if isinstance(x, dict):
+            return bytes.fromhex(x["b"])
+        if isinstance(x, list):
+            return [dec(y) for y in x]
+        return x
+
+    def fix(o):
+        o = dec(o)
+        k = o[0]
+        if k in ("ob", "ox"):
+            return (k, tuple(o[1]))
+        if k in ("pi",):
+            return (k, (o[1][0], o[1][1], o[1][2], o[1][3], list(o[1][4])))
+        if k == "po":
+            return (k, tuple(o[1]))
+        if k in ("su", "au"):
+            return (k, [None if u is None else tuple(u) for u in o[1]])
+        return tuple(o)
+    return [fix(o) for o in j]
+
+
+# ------------------------------------------------------------------------------------------------
+# presentations: the same field values handed over as other legal Python types
+class _MyInt(int):
+    pass
+
+
+PRESENTATIONS = ["bytearray-in-script", "memoryview-in-script", "bytearray-hash", "memoryview-hash", "tuple-witness", "bytearray-witness-items",
+                 "memoryview-witness-items", "int-subclass", "bool-version", "float-value", "str-value", "bytearray-out-script",
+                 "memoryview-out-script", "witness-via-set_witness"]
+
+
+def mk_presented(d, kind, cls=Tx):
+    ver, ins, outs, lock = d
+    I = _MyInt if kind == "int-subclass" else (lambda x: x)
+    tins = []
+    for (h, i, s, q, w) in ins:
+        if kind == "bytearray-in-script":
+            s = bytearray(s)
+        elif kind == "memoryview-in-script":
+            s = memoryview(s)
+        if kind == "bytearray-hash":
+            h = bytearray(h)
+        elif kind == "memoryview-hash":
+            h = memoryview(h)
+        t = cls.TxIn(h, I(i), s, I(q))
+        if kind == "tuple-witness":
+            t.witness = tuple(w)
+        elif kind == "bytearray-witness-items":
+            t.witness = [bytearray(x) for x in w]
+        elif kind == "memoryview-witness-items":
+            t.witness = [memoryview(x) for x in w]
+        else:
+            t.witness = list(w)
+        tins.append(t)
+    touts = []
+    for (v, s) in outs:
+        if kind == "bytearray-out-script":
+            s = bytearray(s)
+        elif kind == "memoryview-out-script":
+            s = memoryview(s)
+        if kind == "float-value" and v < 2**53:
+            v = float(v)
+        elif kind == "str-value":
+            v = str(v)
+        touts.append(cls.TxOut(I(v) if kind == "int-subclass" else v, s))
+    if kind == "bool-version":
+        ver = True if ver == 1 else ver
+    tx = cls(I(ver) if kind == "int-subclass" else ver, tins, touts, I(lock) if kind == "int-subclass" else lock)
+    if kind == "witness-via-set_witness":
+        for k, (_, _, _, _, w) in enumerate(ins):
+            tx.txs_in[k].witness = []
+            tx.set_witness(k, list(w))
+    return tx
+
+
+REFUSALS = ("E_ASSERT", "E_TYPE", "E_STRUCT")
+
+
+def chk_presentation(d, kind, code="BTC"):
+    """presentation independence: same bytes and ids as the plain bytes/int presentation, or a refusal (AssertionError /
+    TypeError / struct.error) - never different bytes"""
+    cls = NET_CLASSES[code]
+    ref = mk_tx(d, cls)
+    want = (ref.as_bin(), ref.as_bin(include_witness_data=False), ref.id(), ref.w_id())
+    try:
+        tx = mk_presented(d, kind, cls)
+        got = (tx.as_bin(), tx.as_bin(include_witness_data=False), tx.id(), tx.w_id())
+    except Exception as e:
+        if exn_tag(e) in REFUSALS:
+            return None
+        return {"kind": "presentation-raises-other", "presentation": kind, "detail": "%s: %s" % (type(e).__name__, e)}
+    if got != want:
+        return {"kind": "presentation-dependent-serialisation", "presentation": kind, "got": got[0][:60].hex(), "want": want[0][:60].hex()}
+    t2 = cls.from_bin(got[0])
+    if tx_tuple(t2) != tx_tuple(ref):
+        return {"kind": "presentation-roundtrip", "presentation": kind}
+    return None
+
+
+def chk_class_order(d, codes):
+    """module-level state: the ids of the same description under several coin classes do not depend on the order in which
+    the classes are used"""
+    def ids(code):
+        t = mk_tx(d, NET_CLASSES[code])
+        return (bytes(t.hash()), bytes(t.w_hash()), t.as_bin())
+    first = {c: ids(c) for c in codes}
+    second = {c: ids(c) for c in reversed(codes)}
+    third = {c: ids(c) for c in codes}
+    for c in codes:
+        if not (first[c] == second[c] == third[c]):
+            return {"kind": "class-order-dependent", "class": c}
+        exp = spec_ser(d)
+        if first[c] != (REF_HASH[c](spec_ser(d, False)), REF_HASH[c](exp), exp):
+            return {"kind": "ids-not-reference-hash", "class": c}
+    return None
+
 # ------------------------------------------------------------------------------------------------
 def model_cases(rng, tier):
     txs = structured_txs(rng, tier)
@@ -500,6 +900,20 @@ def model_cases(rng, tier):
             bo = o0[0].to_bytes(8, "little") + cs(len(o0[1])) + o0[1]
             yield Case("txout_parse %s" % arg(bo), (lambda b=bo: call(i_txout_parse, b)))
             yield Case("txout_parse %s" % arg(bo[:-1]), (lambda b=bo[:-1]: call(i_txout_parse, b)))
+    # histories of one object: observe, mutate, observe again (Model/TxObject.v)
+    for (d, us, ops, code) in history_cases(rng, tier):
+        yield Case(hist_line(HNAME[code], d, us, ops), (lambda d=d, us=us, ops=ops, code=code: hist_impl(d, us, ops, NET_CLASSES[code])))
+    # ids on every network's Tx class
+    for k, d in enumerate(txs[:60 if tier == "quick" else 1500]):
+        if big(d):
+            continue
+        for code in sorted(NET_CLASSES):
+            if code == "BTC" or (k + len(code)) % 3:
+                continue
+            cls = NET_CLASSES[code]
+            yield Case("hash %s %s N" % (HNAME[code], a_tx(d)), (lambda d=d, cls=cls: call(lambda: bytes(mk_tx(d, cls).hash()))))
+            yield Case("w_hash %s %s" % (HNAME[code], a_tx(d)), (lambda d=d, cls=cls: call(lambda: bytes(mk_tx(d, cls).w_hash()))))
+            yield Case("as_bin F F T %s []" % a_tx(d), (lambda d=d, cls=cls: call(lambda: mk_tx(d, cls).as_bin())))
     # coinbase-like inputs for is_coinbase
     for h, i in [(bytes(32), U32), (bytes(32), 0), (bytes(32), 5), (bytes(31) + b"\x01", U32), (bytes(31), U32), (bytes(33), U32)]:
         d = (1, [(h, i, b"\x51\x51", 0, [])], [(1, b"")], 0)
@@ -629,9 +1043,12 @@ def valid_tx(d):
         len(h) == 32 and 0 <= i <= U32 and 0 <= q <= U32 for (h, i, _, q, _) in ins) and all(0 <= v <= U64 for (v, _) in outs)
 
 
-def chk_tx(d):
-    """round trip, wire format, ids — for a transaction with >= 1 input and fields in range"""
-    tx = mk_tx(d)
+def chk_tx(d, code="BTC"):
+    """round trip, wire format, ids — for a transaction with >= 1 input and fields in range, on the Tx class of network `code`"""
+    Tx = NET_CLASSES[code]
+    dsha = REF_HASH[code]
+    mk = lambda dd: mk_tx(dd, Tx)
+    tx = mk(d)
     b = tx.as_bin()
     exp = spec_ser(d)
     if b != exp:
@@ -656,18 +1073,28 @@ def chk_tx(d):
         return {"kind": "wtxid-not-hash-of-wire"}
     # witness data: txid unchanged, wtxid changed
     d2 = (d[0], [(h, i, s, q, list(w) + [b"\x01"]) for (h, i, s, q, w) in d[1]], d[2], d[3])
-    tx2 = mk_tx(d2)
+    tx2 = mk(d2)
     if tx2.id() != tx.id():
         return {"kind": "txid-depends-on-witness"}
     if tx2.w_id() == tx.w_id():
         return {"kind": "wtxid-ignores-witness"}
     d3 = (d[0], [(h, i, s, q, []) for (h, i, s, q, w) in d[1]], d[2], d[3])
-    tx3 = mk_tx(d3)
+    tx3 = mk(d3)
     if tx3.id() != tx.id() or tx3.w_id() != tx3.id():
         return {"kind": "txid-depends-on-witness"}
     lt = LTCTx.from_bin(b)
     if tx_tuple(lt) != tx_tuple(t2):
         return {"kind": "ltc-parse-differs"}
+    # the official setter: attach / change / remove a witness on the SAME object
+    if True:
+        before = tx.id()
+        tx.set_witness(0, [b"\x30" * 71, b"\x02" * 33])
+        if tx.id() != before or tx.hash() != dsha(leg):
+            return {"kind": "txid-depends-on-witness", "how": "set_witness"}
+        if tx.w_id() == tx.id():
+            return {"kind": "wtxid-ignores-witness", "how": "set_witness"}
+        if tx.as_bin(include_witness_data=False) != leg:
+            return {"kind": "stripped-not-legacy-format", "how": "set_witness"}
     return None
 
 
@@ -711,6 +1138,61 @@ def chk_spendable(sp):
     return None
 
 
+_FULLWIDTH = {ord(c): chr(0xFF10 + i) for i, c in enumerate("0123456789")}
+_FULLWIDTH.update({ord(c): chr(0xFF21 + i) for i, c in enumerate("ABCDEF")})
+_FULLWIDTH.update({ord(c): chr(0xFF41 + i) for i, c in enumerate("abcdef")})
+
+
+def chk_text_presentations(sp, d=None):
+    """other presentations of the same text forms: upper-case hex, surrounding blanks / explicit sign / non-ASCII (full-width) digits
+    in the decimal fields, full-width hex digits: the same record or transaction comes back, or ValueError - never another value"""
+    s = mk_sp(sp)
+    want = sp_tuple(s)
+    parts = s.as_text().split("/")
+    variants = []
+    up = list(parts); up[0] = up[0].upper(); up[2] = up[2].upper(); variants.append(("upper-hex", up))
+    sg = list(parts); sg[1] = " +" + sg[1] + " "; sg[3] = "+" + sg[3]; variants.append(("sign-and-blanks", sg))
+    fw = list(parts)
+    for k in (1, 3, 4, 5, 6):
+        fw[k] = fw[k].translate(_FULLWIDTH)
+    variants.append(("fullwidth-decimal", fw))
+    fh = list(parts); fh[0] = fh[0].translate(_FULLWIDTH); variants.append(("fullwidth-hex-hash", fh))
+    fs = list(parts); fs[2] = (fs[2] or "00").translate(_FULLWIDTH); variants.append(("fullwidth-hex-script", fs))
+    for name, v in variants:
+        try:
+            got = sp_tuple(Spendable.from_text("/".join(v)))
+        except ValueError:
+            continue
+        except Exception as e:
+            return {"kind": "text-presentation-raises-other", "variant": name, "detail": "%s: %s" % (type(e).__name__, e)}
+        if got != want and not (name == "fullwidth-hex-script" and not parts[2]):
+            return {"kind": "text-presentation-changes-value", "variant": name, "text": "/".join(v)[:200], "got": str(got)[:200]}
+    dd = s.as_dict()
+    for name, f in (("upper-hex", str.upper), ("fullwidth-hex", lambda x: x.translate(_FULLWIDTH))):
+        d2 = dict(dd, script_hex=f(dd["script_hex"]), tx_hash_hex=f(dd["tx_hash_hex"]))
+        try:
+            got = sp_tuple(Spendable.from_dict(d2))
+        except ValueError:
+            continue
+        except Exception as e:
+            return {"kind": "dict-presentation-raises-other", "variant": name, "detail": "%s: %s" % (type(e).__name__, e)}
+        if got != want:
+            return {"kind": "dict-presentation-changes-value", "variant": name}
+    if d is not None:
+        ref = mk_tx(d)
+        hx = ref.as_hex()
+        for name, v in (("upper-hex", hx.upper()), ("fullwidth-hex", hx.translate(_FULLWIDTH)), ("blank-padded", " " + hx + "\n")):
+            try:
+                t = Tx.from_hex(v)
+            except ValueError:
+                continue
+            except Exception as e:
+                return {"kind": "hex-presentation-raises-other", "variant": name, "detail": "%s: %s" % (type(e).__name__, e)}
+            if tx_tuple(t) != tx_tuple(ref):
+                return {"kind": "hex-presentation-changes-value", "variant": name}
+    return None
+
+
 def valid_sp(sp):
     return 0 <= sp[0] <= U64 and len(sp[2]) == 32 and 0 <= sp[3] <= U32 and 0 <= sp[4] <= U64 and sp[5] in (0, 1) and 0 <= sp[6] <= U64
 
@@ -725,19 +1207,51 @@ def j2sp(j):
 
 def prop_cases(rng, tier):
     txs = [d for d in structured_txs(rng, tier) if valid_tx(d)]
-    for d in txs:
+    codes = sorted(NET_CLASSES)
+    for k, d in enumerate(txs):
         yield PropCase("tx", d2j(d), (lambda d=d: chk_tx(d)))
+        small = len(d[1]) + len(d[2]) < 40 and sum(len(i[2]) for i in d[1]) < 5000
+        if small:
+            # every network's Tx class (Groestlcoin hashes differently), each at least every few transactions
+            for code in (codes if k % 10 == 0 else [codes[k % len(codes)], "GRS"]):
+                if code != "BTC":
+                    yield PropCase("tx", {"tx": d2j(d), "code": code}, (lambda d=d, code=code: chk_tx(d, code)))
+            if k % 4 == 0:
+                kind = PRESENTATIONS[(k // 4) % len(PRESENTATIONS)]
+                yield PropCase("presentation", {"tx": d2j(d), "kind": kind, "code": "BTC"}, (lambda d=d, kind=kind: chk_presentation(d, kind)))
+            if k % 25 == 0:
+                for kind in PRESENTATIONS:
+                    code = codes[(k // 25) % len(codes)]
+                    yield PropCase("presentation", {"tx": d2j(d), "kind": kind, "code": code}, (lambda d=d, kind=kind, code=code: chk_presentation(d, kind, code)))
+                yield PropCase("class_order", {"tx": d2j(d), "codes": codes}, (lambda d=d: chk_class_order(d, codes)))
+    for (d, us, ops, code) in direct_history_cases(rng, tier):
+        yield PropCase("history", {"tx": d2j(d), "us": [None if u is None else [u[0], u[1].hex()] for u in us], "ops": ops2j(ops), "code": code},
+                       (lambda d=d, us=us, ops=ops, code=code: chk_history(d, us, ops, code)))
     for d in txs[: (200 if tier == "quick" else 3000)]:
         us = [(rng.choice([1, 2, U64, 1 << 63, rng.getrandbits(40) + 1]), blob(rng, rng.choice([0, 1, 25, 252, 253, 300]))) for _ in d[1]]
         yield PropCase("unspents", {"tx": d2j(d), "us": [[v, s.hex()] for v, s in us]}, (lambda d=d, us=us: chk_unspents(d, us)))
-    for _ in range(400 if tier == "quick" else 10000):
+    for n in range(400 if tier == "quick" else 10000):
         sp = g_sp(rng)
         yield PropCase("spendable", sp2j(sp), (lambda sp=sp: chk_spendable(sp)))
+        if n % 4 == 0:
+            d = txs[n % len(txs)] if len(txs[n % len(txs)][1]) < 10 else None
+            yield PropCase("text_presentation", {"sp": sp2j(sp), "tx": None if d is None else d2j(d)}, (lambda sp=sp, d=d: chk_text_presentations(sp, d)))
 
 
 def replay_input(check, inp):
     if check == "tx":
+        if "tx" in inp:
+            return chk_tx(j2d(inp["tx"]), inp.get("code", "BTC"))
         return chk_tx(j2d(inp))
+    if check == "history":
+        us = [None if u is None else (u[0], bytes.fromhex(u[1])) for u in inp.get("us", [])]
+        return chk_history(j2d(inp["tx"]), us, j2ops(inp["ops"]), inp.get("code", "BTC"))
+    if check == "presentation":
+        return chk_presentation(j2d(inp["tx"]), inp["kind"], inp.get("code", "BTC"))
+    if check == "text_presentation":
+        return chk_text_presentations(j2sp(inp["sp"]), None if inp.get("tx") is None else j2d(inp["tx"]))
+    if check == "class_order":
+        return chk_class_order(j2d(inp["tx"]), inp["codes"])
     if check == "unspents":
         return chk_unspents(j2d(inp["tx"]), [(v, bytes.fromhex(s)) for v, s in inp["us"]])
     if check == "spendable":
@@ -810,8 +1324,21 @@ def search(rng, tier, disagreements, known_ids):
                         cands.append(PropCase("spendable", sp2j(sp), (lambda sp=sp: chk_spendable(sp))))
                 except Exception:
                     pass
+            if fn == "history":
+                d = _tx_from_case(toks[2:6])
+                if valid_tx(d):
+                    for m in g_mutators(rng, d):
+                        cands.append(PropCase("history", {"tx": d2j(d), "us": [], "ops": ops2j([m]), "code": "BTC"},
+                                              (lambda d=d, m=m: chk_history(d, [], [m], "BTC"))))
             if d is not None and valid_tx(d):
                 cands.append(PropCase("tx", d2j(d), (lambda d=d: chk_tx(d))))
+                code = {"sha256": "GRS"}.get(toks[1], None) if fn in ("hash", "w_hash", "blanked_hash", "id", "w_id", "history") else None
+                for c in ([code] if code else []) + [c for c in sorted(NET_CLASSES) if c not in ("BTC", code)]:
+                    cands.append(PropCase("tx", {"tx": d2j(d), "code": c}, (lambda d=d, c=c: chk_tx(d, c))))
+                if len(d[1]) + len(d[2]) < 20:
+                    for m in g_mutators(rng, d)[:8]:
+                        cands.append(PropCase("history", {"tx": d2j(d), "us": [], "ops": ops2j([m]), "code": code or "BTC"},
+                                              (lambda d=d, m=m, c=(code or "BTC"): chk_history(d, [], [m], c))))
                 us = [(7, b"\x51")] * len(d[1])
                 cands.append(PropCase("unspents", {"tx": d2j(d), "us": [[v, s.hex()] for v, s in us]}, (lambda d=d, us=us: chk_unspents(d, us))))
         except Exception:
